@@ -298,6 +298,10 @@ func (f *FieldR) fill(rv reflect.Value) {
 				}
 			}
 			rv.Set(reflect.ValueOf(m))
+		case "nilptr": // a typed nil pointer in the interface: not == nil, but nil all the same
+			rv.Set(reflect.ValueOf((*Inner)(nil)))
+		case "ptr":
+			rv.Set(reflect.ValueOf(&Inner{X: int(v.I % 1000)}))
 		}
 	case "struct":
 		rv.Set(f.Sub.newWith(rv.Type(), v))
@@ -542,7 +546,7 @@ func drawValue(t *rapid.T, f *FieldR, depth int) *ValueR {
 			v.I = rapid.SampledFrom(valueInts).Draw(t, "pi")
 		}
 	case "any":
-		v.Any = rapid.SampledFrom([]string{"nil", "bool", "int", "float", "string", "ints", "map"}).Draw(t, "anykind")
+		v.Any = rapid.SampledFrom([]string{"nil", "bool", "int", "float", "string", "ints", "map", "nilptr", "ptr"}).Draw(t, "anykind")
 		v.B = true
 		v.I = rapid.SampledFrom(valueInts).Draw(t, "ai")
 		v.F = 2.5
@@ -839,6 +843,11 @@ func Encode(rv reflect.Value, o EncOpts, feats map[string]bool) *ENode {
 func memberRule(fv reflect.Value, e *ENode, o EncOpts, tagOmitEmpty, inMap bool) (int, string) {
 	if tagOmitEmpty && isEmptyValue(fv) {
 		return MustDrop, ""
+	}
+	if tagOmitEmpty && e.Kind == "null" && fv.Kind() == reflect.Interface && !fv.IsNil() && !o.OmitNil && !o.OmitEmpty {
+		// an interface that holds a typed nil pointer: encoding/json does not call that empty
+		// (the interface itself is not nil), ojg does; the option documentation does not say
+		return MayDrop, "typed-nil-in-interface-under-omitempty-tag"
 	}
 	if e.Kind == "null" { // nil pointer or interface
 		if o.OmitNil || o.OmitEmpty {
